@@ -196,3 +196,147 @@ Example C16_example_tp :
   tp_obs true true [] = (false, []) /\ tp_obs false false [] = (true, []).
 Proof. vm_compute. repeat split; reflexivity. Qed.
 Print Assumptions C16_example_tp.
+
+(* ===================================================================================================== *)
+(* The contraction code of ttndo_contractions.py at the diagram level (model TTNDO/Contr.v: trace_ttndo,  *)
+(* ttndo_ttno_expectation_value, _contract_ttno_root, _single_site_contraction, _contract_final_block     *)
+(* and the id_trafo helpers as programs over ONE store holding the whole density-operator network).       *)
+(* Names are qualified: Tree.RTree and Contr.Closed both define `rid`.                                    *)
+(* ===================================================================================================== *)
+From PTN Require Contr.Blocks Contr.Closed TTNDO.Contr TTNDO.ContrProofs.
+
+(* the dictionary view the helpers of contraction_util work with is get_entry(neighbour, node) *)
+Theorem C16_cache_view : forall (nb n : nat) (c : Contr.cache),
+  Store.aget nb (Contr.cview n c) = Contr.cget (nb, n) c.
+Proof. exact ContrProofs.cview_get. Qed.
+Print Assumptions C16_cache_view.
+
+(* the loop over the contraction order, for ANY block function that is locally correct at every node of the
+   tree: running it over the post-order of a subtree whose identifiers do not yet occur in the dictionary adds
+   exactly one entry, (subtree root, its parent), carrying a good block; the children's entries are gone *)
+Theorem C16_contraction_loop : forall (blockf : nat -> list (nat * Blocks.garr) -> option (nat * list nat * Blocks.garr))
+    (Good : Closed.rt -> Blocks.garr -> Prop) (p : nat) (t : Closed.rt),
+  ContrProofs.tree_spec blockf Good p t -> NoDup (Closed.rnodes t) ->
+  forall C : Contr.cache, ContrProofs.cfresh (Closed.rnodes t) C ->
+  exists g, fold_left (Contr.loop_step blockf) (Contr.rpost t) (Some C) = Some (C ++ [((Closed.rid t, p), g)]) /\ Good t g.
+Proof. exact ContrProofs.sub_loop. Qed.
+Print Assumptions C16_contraction_loop.
+
+(* contract_bra_to_ket_and_blocks_ignore_one_leg with id_trafo: the bra node's neighbours are its own parent
+   (never looked up) and the images of the ket's other neighbours, in any order; the legs meet their partners *)
+Theorem C16_bra_to_ket_ignore_id_trafo : forall (tr : nat -> nat) (bt kb : Blocks.garr) (bn kn : Store.node)
+    (next bnext : nat) (x : nat -> nat) (wj o p : nat) (pre post : list nat),
+  Store.neighbouring_nodes kn = pre ++ next :: post ->
+  NoDup (pre ++ next :: post) ->
+  NoDup (Store.neighbouring_nodes bn) ->
+  Permutation.Permutation (Store.neighbouring_nodes bn) (bnext :: map tr (pre ++ post)) ->
+  Blocks.gaxes kb = wj :: o :: map x (map tr (pre ++ post)) ->
+  Blocks.gaxes bt = map x (Store.neighbouring_nodes bn) ++ [p] ->
+  o <> p ->
+  Contr.bra_to_ket_ignore_tr tr bt kb bn kn next =
+  Some {| Blocks.gaxes := [wj; x bnext]; Blocks.gatoms := Blocks.gatoms kb ++ Blocks.gatoms bt;
+          Blocks.gbnd := map x (map tr (pre ++ post)) ++ Blocks.gbnd kb ++ Blocks.gbnd bt;
+          Blocks.gglue := (o, p) :: Blocks.gglue kb ++ Blocks.gglue bt |}.
+Proof. exact ContrProofs.bra_to_ket_ignore_tr_axes. Qed.
+Print Assumptions C16_bra_to_ket_ignore_id_trafo.
+
+(* the contraction order computed from the store (TreeStructure.linearise filtered by the ket suffix) is the
+   post-order of the ket tree, whatever the order of the artificial root's two children *)
+Theorem C16_contraction_order_store : forall (im : Contr.idmaps) (d : Store.store) (r0 : nat) (t : Closed.rt),
+  Contr.wf_ttndo im d r0 t -> Contr.ttndo_contraction_order im d = Some (Contr.rpost t).
+Proof. exact ContrProofs.contraction_order_wf. Qed.
+Print Assumptions C16_contraction_order_store.
+
+(* trace_ttndo, every tree, every bond dimension of the artificial root (no dimension occurs in wf_ttndo except
+   that the root's open leg has dimension 1), every child order on the bra side: the program succeeds and
+   returns the closed network -- no open axis; atoms = the root atom and every ket and bra atom; bound wires = the
+   root's open wire and the parent wire of every ket and every bra node; glued pairs = exactly
+   (open wire of ket node m, open wire of bra node m).  With bra atom = conj(ket atom) and root = eye(k) on a leg
+   padded so that only slice 0 contributes (value-level facts of the build tie, C16_root_bond_dimension) this
+   diagram is <psi|psi>. *)
+Theorem C16_trace_closed : forall (im : Contr.idmaps) (d : Store.store) (r0 : nat) (t : Closed.rt),
+  Contr.wf_ttndo im d r0 t ->
+  exists g, Contr.trace_ttndo im d = Some g /\ Blocks.gaxes g = [] /\
+    Permutation.Permutation (Blocks.gatoms g) (Contr.tr_atoms im d r0 (Closed.rnodes t)) /\
+    Permutation.Permutation (Blocks.gbnd g) (Contr.tr_bnd im d r0 (Closed.rnodes t)) /\
+    Permutation.Permutation (Blocks.gglue g) (Contr.tr_glue im d (Closed.rnodes t)).
+Proof. exact ContrProofs.trace_ttndo_closed. Qed.
+Print Assumptions C16_trace_closed.
+
+(* ttndo_ttno_expectation_value, every tree, every root bond dimension, independent child orders of the bra side
+   and of the operator: the closed network with, at every node m, (ket open m, operator input m) and
+   (operator output m, bra open m) glued (as unordered pairs), every ket / bra / operator edge summed once *)
+Theorem C16_expectation_closed : forall (im : Contr.idmaps) (d op : Store.store) (r0 : nat) (t : Closed.rt),
+  Contr.wf_ttndo3 im d op r0 t ->
+  exists g, Contr.ttndo_ttno_expectation im d op = Some g /\ Blocks.gaxes g = [] /\
+    Permutation.Permutation (Blocks.gatoms g) (Contr.ex_atoms im d op r0 (Closed.rnodes t)) /\
+    Permutation.Permutation (Blocks.gbnd g) (Contr.ex_bnd im d op r0 (Closed.rnodes t) (Closed.rdesc t)) /\
+    Permutation.Permutation (map Blocks.norm_pair (Blocks.gglue g)) (map Blocks.norm_pair (Contr.ex_glue im d op (Closed.rnodes t))).
+Proof. exact ContrProofs.ttndo_expectation_closed. Qed.
+Print Assumptions C16_expectation_closed.
+
+(* the same with decidable hypotheses (what the harness evaluates per instance) *)
+Theorem C16_wfb_trace_closed : forall (im : Contr.idmaps) (d : Store.store),
+  Contr.ttndo_wfb im d = true ->
+  exists r0 t g, Contr.ttndo_tree im d = Some (r0, t) /\ Contr.trace_ttndo im d = Some g /\ Blocks.gaxes g = [] /\
+    Permutation.Permutation (Blocks.gatoms g) (Contr.tr_atoms im d r0 (Closed.rnodes t)) /\
+    Permutation.Permutation (Blocks.gbnd g) (Contr.tr_bnd im d r0 (Closed.rnodes t)) /\
+    Permutation.Permutation (Blocks.gglue g) (Contr.tr_glue im d (Closed.rnodes t)).
+Proof. exact ContrProofs.ttndo_wfb_trace_closed. Qed.
+Print Assumptions C16_wfb_trace_closed.
+
+Theorem C16_wf3b_expectation_closed : forall (im : Contr.idmaps) (d op : Store.store),
+  Contr.ttndo_wf3b im d op = true ->
+  exists r0 t g, Contr.ttndo_tree im d = Some (r0, t) /\ Contr.ttndo_ttno_expectation im d op = Some g /\ Blocks.gaxes g = [] /\
+    Permutation.Permutation (Blocks.gatoms g) (Contr.ex_atoms im d op r0 (Closed.rnodes t)) /\
+    Permutation.Permutation (Blocks.gbnd g) (Contr.ex_bnd im d op r0 (Closed.rnodes t) (Closed.rdesc t)) /\
+    Permutation.Permutation (map Blocks.norm_pair (Blocks.gglue g)) (map Blocks.norm_pair (Contr.ex_glue im d op (Closed.rnodes t))).
+Proof. exact ContrProofs.ttndo_wf3b_expectation_closed. Qed.
+Print Assumptions C16_wf3b_expectation_closed.
+
+(* soundness of the per-instance RESULT checkers: the diagram is the expected one and every atom and every bound
+   wire occurs exactly once in it *)
+Theorem C16_trace_ok_sound : forall (im : Contr.idmaps) (d : Store.store),
+  Contr.ttndo_trace_ok im d = true ->
+  exists r0 t g, Contr.ttndo_tree im d = Some (r0, t) /\ Contr.trace_ttndo im d = Some g /\ Blocks.gaxes g = [] /\
+    Permutation.Permutation (Blocks.gatoms g) (Contr.tr_atoms im d r0 (Closed.rnodes t)) /\ NoDup (Blocks.gatoms g) /\
+    Permutation.Permutation (Blocks.gbnd g) (Contr.tr_bnd im d r0 (Closed.rnodes t)) /\ NoDup (Blocks.gbnd g) /\
+    Permutation.Permutation (map Blocks.norm_pair (Blocks.gglue g)) (map Blocks.norm_pair (Contr.tr_glue im d (Closed.rnodes t))).
+Proof. exact ContrProofs.ttndo_trace_ok_sound. Qed.
+Print Assumptions C16_trace_ok_sound.
+
+Theorem C16_expect_ok_sound : forall (im : Contr.idmaps) (d op : Store.store),
+  Contr.ttndo_expect_ok im d op = true ->
+  exists r0 t g, Contr.ttndo_tree im d = Some (r0, t) /\ Contr.ttndo_ttno_expectation im d op = Some g /\ Blocks.gaxes g = [] /\
+    Permutation.Permutation (Blocks.gatoms g) (Contr.ex_atoms im d op r0 (Closed.rnodes t)) /\ NoDup (Blocks.gatoms g) /\
+    Permutation.Permutation (Blocks.gbnd g) (Contr.ex_bnd im d op r0 (Closed.rnodes t) (Closed.rdesc t)) /\ NoDup (Blocks.gbnd g) /\
+    Permutation.Permutation (map Blocks.norm_pair (Blocks.gglue g)) (map Blocks.norm_pair (Contr.ex_glue im d op (Closed.rnodes t))).
+Proof. exact ContrProofs.ttndo_expect_ok_sound. Qed.
+Print Assumptions C16_expect_ok_sound.
+
+(* the identifier functions of the model on the encoding `code` are those of part A *)
+Theorem C16_code_maps :
+  (forall n, Contr.im_kid Contr.code_maps n = code (ket_id n)) /\
+  (forall n, Contr.im_bid Contr.code_maps n = code (bra_id n)) /\
+  (forall a b, ket_to_bra_id a = Some b -> code b = Contr.im_k2b Contr.code_maps (code a)) /\
+  (forall a n, reverse_ket_id a = Some n -> Contr.im_rev Contr.code_maps (code a) = n) /\
+  (forall a, Contr.im_isket Contr.code_maps (code a) = is_ket a).
+Proof. exact ContrProofs.code_maps_spec. Qed.
+Print Assumptions C16_code_maps.
+
+(* non-vacuity: the network from_ttns builds for a four-node tree (k = 2) and an operator with other child orders
+   satisfy both hypothesis checkers, and the programs return the expected diagrams *)
+Example C16_example_contraction :
+  let t := RNode 0 [RNode 2 []; RNode 1 [RNode 3 []]] in
+  let bond := fun n => nth n [0; 3; 3; 1] 0 in
+  let phys := fun n => nth n [2; 2; 3; 3] 0 in
+  let d := fst (from_ttns_store bond phys 2 t) in
+  let o := fst (Store.run (Blocks.store_at 1000 100)
+                    [Store.AddRoot 0 [2; 2; 2; 2]; Store.AddChild 1 [2; 2; 2; 2] 0 0 0; Store.AddChild 2 [2; 3; 3] 0 0 1;
+                     Store.AddChild 3 [2; 3; 3] 0 1 1]) in
+  Contr.ttndo_wfb Contr.code_maps d = true /\ Contr.ttndo_trace_ok Contr.code_maps d = true /\
+  Contr.ttndo_wf3b Contr.code_maps d o = true /\ Contr.ttndo_expect_ok Contr.code_maps d o = true /\
+  option_map Blocks.summary (Contr.trace_ttndo Contr.code_maps d) =
+    Some ([], [0; 1; 2; 3; 4; 5; 6; 7; 8], [0; 1; 2; 4; 5; 8; 9; 16; 19], [(6, 10); (12, 14); (17, 20); (22, 24)]).
+Proof. exact ContrProofs.ttndo_contr_example. Qed.
+Print Assumptions C16_example_contraction.
